@@ -208,6 +208,91 @@ def _strip_logging(tree):
             setattr(node, field, kept)
 
 
+def _unroll_records(tree):
+    """`D = dict(k1=e1, ...)` (or a literal with constant identifier keys) immediately followed by
+    `for a, b in D.items(): setattr(<obj>, a, b)` is the sequence `<obj>.k1 = e1; ...` (same evaluation order: every value
+    is computed before any attribute is written only if no ei reads <obj>.kj - checked).  Later reads `D['k']` /
+    `D[name]` are `<obj>.k` / `getattr(<obj>, name)` as long as nothing writes those attributes or D afterwards; any other
+    use keeps `D = dict(k1=<obj>.k1, ...)` alive.  Also `list({k: v for k in X}.values())` -> `[v for k in X]` (equal
+    whenever X has no repeated element, which is what every such record of named quantities assumes)."""
+    import copy as _copy
+
+    for n in ast.walk(tree):
+        if isinstance(n, ast.Call) and isinstance(n.func, ast.Name) and n.func.id == "list" and len(n.args) == 1 and not n.keywords:
+            a = n.args[0]
+            if isinstance(a, ast.Call) and isinstance(a.func, ast.Attribute) and a.func.attr == "values" and not a.args and isinstance(a.func.value, ast.DictComp):
+                dc = a.func.value
+                if len(dc.generators) == 1 and not dc.generators[0].ifs and isinstance(dc.generators[0].target, ast.Name) and isinstance(dc.key, ast.Name) and dc.key.id == dc.generators[0].target.id:
+                    new = ast.copy_location(ast.ListComp(elt=dc.value, generators=dc.generators), n)
+                    n.__class__ = ast.ListComp
+                    n.__dict__.clear()
+                    n.__dict__.update(new.__dict__)
+
+    def record(v):
+        if isinstance(v, ast.Call) and isinstance(v.func, ast.Name) and v.func.id == "dict" and not v.args and v.keywords and all(k.arg for k in v.keywords):
+            return [(k.arg, k.value) for k in v.keywords]
+        if isinstance(v, ast.Dict) and v.keys and all(isinstance(k, ast.Constant) and isinstance(k.value, str) and k.value.isidentifier() for k in v.keys):
+            return [(k.value, e) for k, e in zip(v.keys, v.values)]
+        return None
+
+    for fn in [x for x in ast.walk(tree) if isinstance(x, (ast.FunctionDef, ast.AsyncFunctionDef))]:
+        for node in ast.walk(fn):
+            for field in ("body", "orelse", "finalbody"):
+                blk = getattr(node, field, None)
+                if not (isinstance(blk, list) and blk and isinstance(blk[0], ast.stmt)) or isinstance(node, ast.ClassDef):
+                    continue
+                i = 0
+                while i + 1 < len(blk):
+                    s, t = blk[i], blk[i + 1]
+                    i += 1
+                    if not (isinstance(s, ast.Assign) and len(s.targets) == 1 and isinstance(s.targets[0], ast.Name)):
+                        continue
+                    rec = record(s.value)
+                    d = s.targets[0].id
+                    if rec is None or len({k for k, _ in rec}) != len(rec):
+                        continue
+                    if not (isinstance(t, ast.For) and not t.orelse and isinstance(t.target, ast.Tuple) and len(t.target.elts) == 2 and all(isinstance(e, ast.Name) for e in t.target.elts)
+                            and isinstance(t.iter, ast.Call) and isinstance(t.iter.func, ast.Attribute) and t.iter.func.attr == "items" and not t.iter.args and isinstance(t.iter.func.value, ast.Name) and t.iter.func.value.id == d
+                            and len(t.body) == 1 and isinstance(t.body[0], ast.Expr) and isinstance(t.body[0].value, ast.Call) and isinstance(t.body[0].value.func, ast.Name) and t.body[0].value.func.id == "setattr"
+                            and len(t.body[0].value.args) == 3 and not t.body[0].value.keywords):
+                        continue
+                    obj, a1, a2 = t.body[0].value.args
+                    if not (isinstance(obj, ast.Name) and isinstance(a1, ast.Name) and isinstance(a2, ast.Name) and a1.id == t.target.elts[0].id and a2.id == t.target.elts[1].id):
+                        continue
+                    keys = {k for k, _ in rec}
+                    # D bound once, never mutated; the attributes written only here; no value reads an attribute being written
+                    binds = [x for x in ast.walk(fn) if isinstance(x, ast.Name) and x.id == d and isinstance(x.ctx, (ast.Store, ast.Del))]
+                    if len(binds) != 1:
+                        continue
+                    if any(isinstance(x, ast.Attribute) and x.attr in keys and isinstance(x.value, ast.Name) and x.value.id == obj.id and (isinstance(x.ctx, ast.Store) or any(x is y for _, e in rec for y in ast.walk(e))) for x in ast.walk(fn)):
+                        continue
+                    if any(isinstance(x, ast.Call) and isinstance(x.func, ast.Name) and x.func.id in ("setattr", "delattr") and x is not t.body[0].value for x in ast.walk(fn)):
+                        continue
+                    uses = [x for x in ast.walk(fn) if isinstance(x, ast.Name) and x.id == d and isinstance(x.ctx, ast.Load) and x is not t.iter.func.value]
+                    parents = {id(c): p_ for p_ in ast.walk(fn) for c in ast.iter_child_nodes(p_)}
+                    other = False
+                    for u in uses:
+                        par = parents.get(id(u))
+                        if isinstance(par, ast.Subscript) and par.value is u and isinstance(par.ctx, ast.Load):
+                            if isinstance(par.slice, ast.Constant) and par.slice.value in keys:
+                                new = ast.Attribute(value=ast.Name(id=obj.id, ctx=ast.Load()), attr=par.slice.value, ctx=ast.Load())
+                            else:
+                                new = ast.Call(func=ast.Name(id="getattr", ctx=ast.Load()), args=[ast.Name(id=obj.id, ctx=ast.Load()), par.slice], keywords=[])
+                            new = ast.fix_missing_locations(ast.copy_location(new, par))
+                            par.__class__ = type(new)
+                            par.__dict__.clear()
+                            par.__dict__.update(new.__dict__)
+                        else:
+                            other = True
+                    stores = [ast.fix_missing_locations(ast.copy_location(ast.Assign(targets=[ast.Attribute(value=ast.Name(id=obj.id, ctx=ast.Load()), attr=k, ctx=ast.Store())], value=e), e)) for k, e in rec]
+                    keep = []
+                    if other:
+                        s.value = ast.fix_missing_locations(ast.copy_location(ast.Call(func=ast.Name(id="dict", ctx=ast.Load()), args=[], keywords=[ast.keyword(arg=k, value=ast.Attribute(value=ast.Name(id=obj.id, ctx=ast.Load()), attr=k, ctx=ast.Load())) for k, _ in rec]), s.value))
+                        keep = [s]
+                    blk[i - 1 : i + 1] = stores + keep
+                    i += len(stores) + len(keep) - 2
+
+
 def _normalise_syntax(tree):
     """Statement-level normal forms applied to every module before anything is indexed, so that spelling variants of
     one program are one program to every rule (each rewrite preserves behaviour):
@@ -222,6 +307,7 @@ def _normalise_syntax(tree):
     """
     import copy as _copy
 
+    _unroll_records(tree)
     # unread constant locals
     for fn in [n for n in ast.walk(tree) if isinstance(n, (ast.FunctionDef, ast.AsyncFunctionDef))]:
         loads, declared, dyn = set(), set(), False
